@@ -147,6 +147,23 @@ def src_limits():
     for k, s in enumerate(["Fonctionnalit\u00e9: f\n  Sc\u00e9nario: s\n    Soit x\n", "# language: en\nFeature: f\n  Scenario: s\n    Given x\n", "Fonctionnalit\u00e9: g\n  Sc\u00e9nario: t\n    Soit y\n",
                            "# language: de\nFunktionalit\u00e4t: f\n  Szenario: s\n    Angenommen x\n", "Feature: english without header\n  Scenario: s\n    Given x\n", "# language: fr\nFonctionnalit\u00e9: h\n", "Fonctionnalit\u00e9: i\n"]):
         out.append((f"french-default:{k}", s, "fr"))
+    # carriage returns at line ends that are not one CR LF pair: CR CR LF inside doc strings, descriptions, comments, names; a last line ending in a bare CR
+    out.append(("cr-cr-lf", "Feature: f\r\r\n  first line\r\r\n  Scenario: s\r\n    Given x\r\r\n      \"\"\"\r\n      payload\r\r\n      \r\r\n      \"\"\"\r\n  # c\r\r\n    Then y\r\n", "en"))
+    for k, tail in enumerate(["Feature: f\r\n  first line\r\n  last line\r", "Feature: f\r\n  Scenario: s\r\n    Given x\r\n      \"\"\"\r\n      payload\r", "Feature: f\r\n# done\r", "Feature: f\r\n  Scenario: s\r",
+                              "Feature: f\r\n  Scenario: s\r\n    Given x\r\n      | a |\r", "Feature: f\n  text\r\r", "Feature: f\r\n  @t\r"]):
+        out.append((f"final-cr:{k}", tail, "en"))
+    # separator / control characters inside cells, example values, header names, names and doc strings (they are ordinary characters)
+    for k, ch in enumerate(["\x1f", "\x1e", "\x1c", "\x00", "\x7f", "\x85", "\u2028", "\x0b", "\x0c", "\ufffe"]):
+        out.append((f"control-character:{k}", f"Feature: f{ch}g\n  Scenario Outline: o{ch}<a{ch}b> <c>\n    Given p{ch}q <c> <a{ch}b>\n      | u{ch}v | <c> | x{ch}<a{ch}b>{ch}y |\n      | <c>{ch}<c> | 2 | 3 |\n"
+                    f"    And doc\n      \"\"\"\n      d{ch}<c>{ch}e\n      \"\"\"\n    Examples:\n      | a{ch}b | c |\n      | 1{ch}2 | m{ch}n |\n", "en"))
+    # a backslash directly before the escaped form of the delimiter; the escaped forms next to each other and at the line ends
+    out.append(("backslash-before-escaped-delimiter", "Feature: f\n  Scenario: s\n    Given x\n      \"\"\"\n      \\\\\"\\\"\\\" a\n      b \\\\\\\"\\\"\\\"\n      \\\"\\\"\\\"\\\"\\\"\\\"\n      \\\\`\\`\\`\n      \"\"\"\n"
+                "    And y\n      ```\n      \\\\`\\`\\` a\n      \\`\\`\\`\\`\\`\\`\\\n      \\\\\"\\\"\\\"\n      ```\n", "en"))
+    # doc strings with content in every place a step can stand: scenario / outline / background, at feature level and inside a first and a second rule
+    for k, (pad, pre, post) in enumerate([("", "", ""), ("  ", "  Rule: r1\n", "  Rule: r2\n    Scenario: s3\n      Given d\n"), ("  ", "  Scenario: s0\n    Given z\n  Rule: r0\n    Example: e\n  Rule: r1\n", "  Rule: r2\n")]):
+        for j, (kw, tail) in enumerate([("Scenario", ""), ("Scenario Outline", f"{pad}    Examples:\n{pad}      | x |\n{pad}      | 1 |\n"), ("Background", "")]):
+            out.append((f"docstring-in:{k}:{j}", f"Feature: f\n{pre}{pad}  {kw}: s1\n{pad}    Given a <x>\n{pad}      \"\"\"text/plain\n{pad}      Rule: not a rule\n{pad}        @tag\n# comment\n\n{pad}      | a |\n{pad}      ```\n"
+                        f"{pad}      Scenario: no\n{pad}      \"\"\"\n{pad}    Then b\n{pad}      ```\n{pad}      c\n{pad}      ```\n{tail}\n{pad}  Scenario: s2\n{pad}    Given c\n{post}", "en"))
     # counts beyond any small-number threshold (caches, recursion depth, fixed-size buffers): more than a thousand of each repeatable construct
     N = 1100
     out.append(("count:tags-on-line", " ".join(f"@t{i}" for i in range(300)) + "\nFeature: f\n  " + "".join(f"@u{i}" for i in range(300)) + "\n  Scenario: s\n", "en"))
@@ -191,19 +208,48 @@ def traces(rep: Reporter, recs: list[dict], label: str, batch: int = 1500) -> No
         results, res = PL.validate(part, tag=f"{prop}-trace")
         rep.add_tlc(f"Trace_Pipeline[{label}:{b}]", res, f"{len(part)} recorded executions")
         rep.traces += len(part)
+        relational = []
         for tid, r in results.items():
             rec = part[tid - 1]
             text = "".join(uncp(l) for l in rec["lines"])
             rep.case(text, nontrivial=len(rec["lines"]) > 1)
-            for own, label_, detail in AT.trace_findings(r, rec):
+            found = AT.trace_findings(r, rec)
+            for own, label_, detail in found:
                 if prop in own:
                     rep.violation({"kind": label_.split("@")[0]},
                                   {"engine": "trace", "name": rec["name"], "what": label_, "source": text, "dialect": rec["dialect"],
                                    "mode": rec["mode"], "detail": detail})
+            if prop == "C13" and found and not any(prop in own for own, _, _ in found) and any(t["type"] == "DocStringSeparator" for t in rec["toks"]):
+                relational.append((rec, found))
+        if relational:
+            _docstring_relation(rep, relational)
         if part:
             r0 = part[0]
             rep.sample({"trace": r0["name"], "lines": len(r0["lines"]), "accepted": r0["ok"], "tokens": len(r0["toks"]), "errors": len(r0["errs"]),
                         "pickles": len(r0["pickles"])})
+
+
+def _docstring_relation(rep: Reporter, items) -> None:
+    """C13, "after the closing delimiter normal parsing resumes" / "no line [inside] is interpreted as Gherkin": a disagreement with the specification that no
+    other clause of C13 owns is C13's too when it is THERE BECAUSE OF THE DOC STRING -- i.e. when the same document with every doc string block (opening line,
+    content, closing line, as delivered) replaced by as many comment lines agrees with the specification completely."""
+    variants = []
+    for rec, found in items:
+        lines = [uncp(l) for l in rec["lines"]]
+        seps = [t["line"] for t in rec["toks"] if t["type"] == "DocStringSeparator"]
+        blocks = [(seps[j], seps[j + 1] if j + 1 < len(seps) else len(lines)) for j in range(0, len(seps), 2)]
+        for a, b in blocks:
+            for i in range(a, min(b, len(lines)) + 1):
+                lines[i - 1] = "#" + ("\n" if lines[i - 1].endswith("\n") else "")
+        variants.append(R.record(rec["name"] + "|without-doc-strings", "".join(lines), rec["dialect"], rec["mode"]))
+    results, res = PL.validate(variants, tag="C13-relation")
+    rep.add_tlc("Trace_Pipeline[doc strings replaced by comment lines]", res, f"{len(variants)} documents that disagree with the specification, re-validated without their doc strings")
+    for tid, r in results.items():
+        rec, found = items[tid - 1]
+        if not AT.trace_findings(r, variants[tid - 1]) and not variants[tid - 1]["exc"]:
+            rep.violation({"kind": "docstring-relation"}, {"engine": "trace", "name": rec["name"], "what": "the document disagrees with the specification (" + ", ".join(l for _, l, _ in found) +
+                                                           "), and agrees completely once its doc strings are replaced by comment lines: parsing does not resume normally after / is disturbed by a doc string",
+                                                           "source": "".join(uncp(l) for l in rec["lines"]), "dialect": rec["dialect"], "mode": rec["mode"]})
 
 
 def replay_owners(m) -> set[str]:
@@ -403,6 +449,12 @@ def usage_variants_pass(rep: Reporter, sources, label: str = "usage") -> None:
                 ref, _ = S.outcome(lambda: parser().parse(s, TokenMatcher(dialect)))
                 variants = {"str subclass": lambda: parser().parse(Text(s), TokenMatcher(dialect)),
                             "TokenScanner(text)": lambda: parser().parse(TokenScanner(s), TokenMatcher(dialect))}
+                def assigned_later():
+                    p = Parser()
+                    p.ast_builder = AstBuilder(IdGenerator())
+                    p.stop_at_first_error = stop
+                    return p.parse(s, TokenMatcher(dialect))
+                variants["builder assigned after construction"] = assigned_later
                 if dialect == "en":
                     variants["default matcher"] = lambda: parser().parse(s)
                     variants["default builder"] = lambda: _default_builder(Parser(), stop).parse(s, TokenMatcher("en"))
